@@ -350,11 +350,14 @@ ElemAttribute::startElement(StylesheetExecutionContext& executionContext) const
                     }
                     else
                     {
-                        // Check to see if there's already a namespace declaration in scope...
-                        const XalanDOMString* const     prefix =
-                            executionContext.getResultPrefixForNamespace(attrNameSpace);
+                        // Check to see if the prefix is already declared
+                        // for the namespace.  That some other prefix, or the
+                        // default namespace, is bound to it does not help.
+                        const XalanDOMString* const     theBoundNamespace =
+                            executionContext.getResultNamespaceForPrefix(nsprefix);
 
-                        if (prefix == 0)
+                        if (theBoundNamespace == 0 ||
+                            *theBoundNamespace != attrNameSpace)
                         {
                             // We need to generate a namespace declaration...
                             const GetCachedString   nsDeclGuard(executionContext);
@@ -655,11 +658,14 @@ ElemAttribute::execute(StylesheetExecutionContext&  executionContext) const
                     }
                     else
                     {
-                        // Check to see if there's already a namespace declaration in scope...
-                        const XalanDOMString* const     prefix =
-                            executionContext.getResultPrefixForNamespace(attrNameSpace);
+                        // Check to see if the prefix is already declared
+                        // for the namespace.  That some other prefix, or the
+                        // default namespace, is bound to it does not help.
+                        const XalanDOMString* const     theBoundNamespace =
+                            executionContext.getResultNamespaceForPrefix(nsprefix);
 
-                        if (prefix == 0)
+                        if (theBoundNamespace == 0 ||
+                            *theBoundNamespace != attrNameSpace)
                         {
                             // We need to generate a namespace declaration...
                             const GetCachedString   nsDeclGuard(executionContext);
